@@ -181,11 +181,20 @@ func warmKeys(g *gen.G, label string, sks []crypto.PrivateKey) {
 func pkVariant(g *gen.G, label string, k blsKey) crypto.PublicKey {
 	switch g.Int(label, 0, 7) {
 	case 4:
-		pk, err := crypto.DecodePublicKey(crypto.BLSBLS12381, k.pk.Encode())
+		enc := k.pk.Encode()
+		buf := append([]byte{}, enc...)
+		pk, err := crypto.DecodePublicKey(crypto.BLSBLS12381, buf)
 		if err != nil {
 			g.Fatalf("DecodePublicKey of an encoded public key failed: %v", err)
 		}
-		g.Class("pkVia:decoded")
+		// the caller reuses its buffer (reads the next key into it): the decoded key must not depend on it any more
+		for i := range buf {
+			buf[i] = 0xA5
+		}
+		if got := pk.Encode(); !bytes.Equal(got, enc) {
+			g.Fatalf("a public key decoded from a buffer changed when the caller overwrote that buffer: Encode() = %x, decoded from %x", got, enc)
+		}
+		g.Class("pkVia:decodedFromReusedBuffer")
 		return pk
 	case 5:
 		pk, err := crypto.AggregateBLSPublicKeys([]crypto.PublicKey{k.pk})
@@ -261,11 +270,10 @@ func drawHasher(g *gen.G, label string) (hash.Hasher, string) {
 	tag := drawTag(g, label+"Tag")
 	h := crypto.NewExpandMsgXOFKMAC128(tag)
 	if g.Chance(label+"UsedBefore", 1, 4) {
-		// a hasher object with a history: bytes were written to it earlier and never reset.  Sign / Verify hash with
-		// ComputeHash, which is documented to be independent of anything written before (and to leave a KMAC128 hasher
-		// untouched), so every result must be what a fresh hasher with the same tag gives.
-		_, _ = h.Write(g.Bytes(label+"PriorWrite", 1, 40))
-		g.Class("hasher:writtenToBefore")
+		// a hasher object with a history (written to, reset, read earlier).  Sign / Verify hash with ComputeHash, which is
+		// documented to be independent of anything done before (and to leave a KMAC128 hasher untouched), so every result
+		// must be what a fresh hasher with the same tag gives.
+		ageHasher(g, label+"Age", h, 168)
 	}
 	hasherTags.Lock()
 	if len(hasherTags.m) > 4096 {
@@ -472,7 +480,7 @@ func isIdentityEncoding(b []byte) bool {
 	return true
 }
 
-// identityKeys returns identity public keys obtained in six different ways.
+// identityKeys returns identity public keys obtained in eight different ways.
 func identityKeys(g *gen.G, k blsKey) []crypto.PublicKey {
 	out := []crypto.PublicKey{crypto.IdentityBLSPublicKey()}
 	enc := make([]byte, 96)
@@ -514,8 +522,55 @@ func identityKeys(g *gen.G, k blsKey) []crypto.PublicKey {
 		g.Fatalf("two-step RemoveBLSPublicKeys failed: %v", err)
 	}
 	out = append(out, step)
+	// the public key of a zero private key: AggregateBLSPrivateKeys of x and r-x (documented to be possible), with inputs
+	// that had / had not been asked for their public key before
+	for _, warm := range []bool{false, true} {
+		a, b := decodeSK(g, k.x), decodeSK(g, new(big.Int).Sub(blsR, k.x))
+		if warm {
+			_, _ = a.PublicKey(), b.PublicKey()
+		}
+		z, err := crypto.AggregateBLSPrivateKeys([]crypto.PrivateKey{a, b})
+		if err != nil {
+			g.Fatalf("AggregateBLSPrivateKeys(x, r-x) failed: %v", err)
+		}
+		out = append(out, z.PublicKey())
+	}
 	return out
 }
 
 // numIdentityKinds is len(identityKeys(...)).
-const numIdentityKinds = 6
+const numIdentityKinds = 8
+
+
+// ageHasher gives a hasher object a short generated history before it is handed to the code under test: writes whose
+// lengths sit around the block size (so that the very first write of a new object may fill the sponge exactly), resets,
+// ComputeHash and SumHash calls.  ComputeHash "returns the hash output regardless of the existing hash state", so the
+// signing and verification functions, which hash through ComputeHash, must not be affected by any of it.  After a
+// SumHash or ComputeHash the history only resets or computes (SHA-3 style objects require a Reset before further writes).
+func ageHasher(g *gen.G, label string, h hash.Hasher, rate int) {
+	needReset := false
+	for i, n := 0, g.Int(label+"Ops", 1, 4); i < n; i++ {
+		op := g.Int(label+"Op", 0, 5)
+		if needReset && op <= 2 {
+			op = 3 + op%2
+		}
+		switch op {
+		case 0, 1, 2:
+			k := []int{1, rate - 1, rate, rate + 1, 2 * rate, 3 * rate, 17}[g.Pick(label+"WriteLen", 7)]
+			_, _ = h.Write(g.Expand(label+"WriteData", k))
+			g.Class(fmt.Sprintf("hasherHistory:write%s", map[bool]string{true: "WholeBlocks", false: ""}[k%rate == 0]))
+		case 3:
+			h.Reset()
+			needReset = false
+			g.Class("hasherHistory:reset")
+		case 4:
+			_ = h.ComputeHash(g.Bytes(label+"Compute", 0, 20))
+			needReset = true
+			g.Class("hasherHistory:computeHash")
+		default:
+			_ = h.SumHash()
+			needReset = true
+			g.Class("hasherHistory:sumHash")
+		}
+	}
+}
